@@ -7,7 +7,7 @@
    PARTIAL: completeness of the pattern search (_get_singularity: SymPy match + solveset) has no theorem -- that
    "affine-U equations of the four forms are always repaired" is decided by stage D of tools/props/c12.py only. *)
 From Coq Require Import ZArith QArith Reals Qreals List Bool.
-From Verif Require Import Sexp Singularity C12P.
+From Verif Require Import Sexp Singularity C12P C12MergeP.
 Import ListNotations.
 Open Scope R_scope.
 
@@ -107,3 +107,17 @@ Theorem C12_each_equation_same_or_repaired : forall find excluded inline eqs u i
              /\ fst (remove_singularities find (inline u' rhs)) = true.
 Proof. exact each_equation_same_or_repaired. Qed.
 Print Assumptions C12_each_equation_same_or_repaired.
+
+(* the summands of a sum are merged into ONE window only when EVERY summand carries a window with that same singular point *)
+Theorem C12_merge_requires_all_windowed : forall (ps : list part) w, merged ps = Some w ->
+  Forall (fun p : part => exists w' ex hp, p = (Some w', ex, hp) /\ wsp w' = wsp w) ps.
+Proof. exact merge_requires_all_windowed. Qed.
+Print Assumptions C12_merge_requires_all_windowed.
+
+(* hence a sum with a summand that has no singularity of its own (but may hold nested repairs, e.g. c / (d + ghk)) is rebuilt
+   from the separately repaired summands: nothing repaired inside a summand is thrown away by the merge (seeded change C12-21) *)
+Theorem C12_add_with_windowless_summand_keeps_parts : forall find l, has_exp (SAdd l) = true ->
+  (exists a, In a l /\ fst (fst (fixp find a)) = None) ->
+  fixp find (SAdd l) = (None, SAdd (map wrap (map (fixp find) l)), existsb flag (map (fixp find) l)).
+Proof. exact add_with_windowless_summand_keeps_parts. Qed.
+Print Assumptions C12_add_with_windowless_summand_keeps_parts.
